@@ -825,7 +825,7 @@ func ruleConsumerCloseCloses(c *Ctx) {
 			if cc.IsInvoke() {
 				return cc.Method.Name() == role.want
 			}
-			return cc.StaticCallee() != nil && cc.StaticCallee().Name() == role.want
+			return cc.StaticCallee() != nil && baseFuncName(cc.StaticCallee()) == role.want
 		}, func(s cnt, cond ssa.Value, taken bool) (cnt, bool) {
 			cv, neg := condNeg(cond)
 			if f, _, ok := fieldLoad(cv); ok && f == closedF && taken != neg {
